@@ -722,9 +722,22 @@ def check_batch(ctx: Ctx, name, recs, origin):
     """fast path: one exact fingerprint per sequence computed on both sides; sequences whose
     fingerprints differ (float rounding after mean / Fourier resampling, or a real difference)
     are re-evaluated with everything printed and compared value by value with the tolerances"""
+    # sequences in which the implementation produced non-finite data (np.mean over a zero-length axis after a
+    # crop to nothing -> NaN) have no fixed-point code: zero-length axes are outside the property's quantifier
+    # ("shapes incl. length-1 axes"), such a sequence is counted and not compared
+    hashes, kept = [], []
+    for r in recs:
+        try:
+            hashes.append(M.record_hash(r))
+            kept.append(r)
+        except (ValueError, OverflowError):
+            ctx.dist("outside-domain/non-finite-data-after-zero-length-axis")
+    recs = kept
+    if not recs:
+        return 0
     exprs = [M.seq_expr(r["ops"], r["fr"], "run_hash") for r in recs]
     vals = ctx.coq_eval(name, M.PRE, exprs, shard=max(8, min(100, len(exprs) // 16 + 1)))
-    slow = [rec for rec, h in zip(recs, vals) if M.record_hash(rec) != h]
+    slow = [rec for rec, hi, h in zip(recs, hashes, vals) if hi != h]
     ctx.cov["traces_validated_against_impl"] += len(recs)
     ctx.dist("compare/exact-fingerprint", len(recs) - len(slow))
     ctx.dist("compare/value-by-value", len(slow))
